@@ -142,24 +142,48 @@ fn c22(seed: u64, case: u64, out: &Out) {
         }
         1 => {
             let ms = rng.range(60, 150);
-            out.begin(case, jobj! {"scenario" => "a coroutine in a Syscall state spins; it must not be suspended, a ready sibling waits", "spin_cpu_ms" => ms});
+            // race variant: the coroutine computes in the Running state until about the end of its 10 ms slice and enters the call right then,
+            // so that a preemption signal which is already on its way finds it in a Syscall state; 150 rounds with different margins
+            let race = (case / 4) % 2 == 1;
+            let rounds = if race { 150 } else { 1 };
+            let margins_us: Vec<u64> = (0..rounds).map(|_| if race { rng.range(9_800, 11_200) } else { 0 }).collect();
+            out.begin(case, jobj! {"scenario" => "a coroutine in a Syscall state spins; it must not be suspended, a ready sibling waits", "spin_cpu_ms" => ms,
+                "variant" => if race {"150 rounds: compute 9.8-11.2 ms in the Running state, then enter the call and spin 1 ms there (a preemption signal already on its way must not suspend it inside the call)"} else {"enters the call at once"}});
             let w = Watch::default();
             let mut sch = Scheduler::new(format!("c22-{seed}-{case}"), 128 * 1024);
             sch.add_listener(w.clone());
             let order: Arc<Mutex<Vec<&'static str>>> = Arc::default();
             let o1 = order.clone();
+            // race variant: [enter, leave] of every stay inside the call, and the moments at which the sibling ran on this thread
+            let in_call: Arc<Mutex<Vec<(u64, u64)>>> = Arc::default();
+            let ticks: Arc<Mutex<Vec<u64>>> = Arc::default();
+            let main_done = Arc::new(AtomicBool::new(false));
+            let (ic, md) = (in_call.clone(), main_done.clone());
             let _ = sch
                 .submit_co(
                     move |_, ()| {
-                        let co = SchedulableCoroutine::current().expect("current");
-                        co.syscall((), SyscallName::write, SyscallState::Executing).expect("enter syscall");
-                        let start = thread_cpu_ns();
-                        while thread_cpu_ns() - start < ms * 1_000_000 {
-                            std::hint::spin_loop();
+                        for m in &margins_us {
+                            // Running state: may be preempted here, that is what the slice is for
+                            let t = Instant::now();
+                            while (t.elapsed().as_micros() as u64) < *m {
+                                std::hint::spin_loop();
+                            }
+                            let co = SchedulableCoroutine::current().expect("current");
+                            co.syscall((), SyscallName::write, SyscallState::Executing).expect("enter syscall");
+                            let entered = wl_core::mono_ns();
+                            let start = thread_cpu_ns();
+                            let stay = if race { 1 } else { ms };
+                            while thread_cpu_ns() - start < stay * 1_000_000 {
+                                std::hint::spin_loop();
+                            }
+                            if !race {
+                                o1.lock().unwrap().push("syscall-coroutine-finished-spinning");
+                            }
+                            ic.lock().unwrap().push((entered, wl_core::mono_ns()));
+                            let co = SchedulableCoroutine::current().expect("current");
+                            co.running().expect("leave syscall");
                         }
-                        o1.lock().unwrap().push("syscall-coroutine-finished-spinning");
-                        let co = SchedulableCoroutine::current().expect("current");
-                        co.running().expect("leave syscall");
+                        md.store(true, Ordering::SeqCst);
                         Some(1)
                     },
                     None,
@@ -167,19 +191,28 @@ fn c22(seed: u64, case: u64, out: &Out) {
                 )
                 .expect("submit");
             let o2 = order.clone();
+            let (tk, md2) = (ticks.clone(), main_done.clone());
             let _ = sch
                 .submit_co(
-                    move |_, ()| {
+                    move |sus: &SchedulableSuspender, ()| {
                         o2.lock().unwrap().push("sibling-ran");
+                        if race {
+                            // keeps yielding: every time it gets the thread it leaves a time stamp
+                            let t = Instant::now();
+                            while !md2.load(Ordering::SeqCst) && t.elapsed() < Duration::from_secs(9) {
+                                tk.lock().unwrap().push(wl_core::mono_ns());
+                                sus.suspend();
+                            }
+                        }
                         Some(2)
                     },
                     None,
-                    Some(1),
+                    Some(0),
                 )
                 .expect("submit");
             let t0 = Instant::now();
             let mut results: std::collections::HashMap<u64, Result<Option<usize>, String>> = std::collections::HashMap::new();
-            while results.len() < 2 && t0.elapsed() < Duration::from_secs(8) {
+            while results.len() < 2 && t0.elapsed() < Duration::from_secs(if race { 12 } else { 8 }) {
                 if let Ok((_, r)) = sch.try_timed_schedule(Duration::from_millis(100)) {
                     results.extend(r.into_iter().map(|(k, v)| (k, v.map_err(str::to_string))));
                 }
@@ -188,8 +221,21 @@ fn c22(seed: u64, case: u64, out: &Out) {
             let susp_in_sys = log.iter().filter(|(o, n)| o.starts_with("Syscall") && n == "Suspend").count();
             let ord = order.lock().unwrap().clone();
             preemptions = 1; // this scenario is about the absence of one
-            obs = jobj! {"order" => ord.iter().map(|s| (*s).to_string()).collect::<Vec<_>>(), "transitions" => log.len(), "results" => results.len()};
-            if ord.first() != Some(&"syscall-coroutine-finished-spinning") || susp_in_sys > 0 {
+            obs = jobj! {"order" => ord.iter().map(|s| (*s).to_string()).collect::<Vec<_>>(), "transitions" => log.len(), "results" => results.len(),
+                "preemptions_in_the_running_state" => log.iter().filter(|(o, n)| o == "Running" && n == "Suspend").count(), "suspensions_inside_the_call" => susp_in_sys};
+            let stays = in_call.lock().unwrap().clone();
+            let tks = ticks.lock().unwrap().clone();
+            let intruded = stays.iter().filter(|(a, b)| tks.iter().any(|t| t > a && t < b)).count();
+            if let J::O(ref mut o) = obs {
+                o.push(("stays_inside_the_call".into(), J::U(stays.len() as u64)));
+                o.push(("sibling_time_stamps".into(), J::U(tks.len() as u64)));
+                o.push(("stays_during_which_the_sibling_ran".into(), J::U(intruded as u64)));
+            }
+            if intruded > 0 {
+                viol = Some(("coroutine-preempted-in-syscall-state".into(), format!("the sibling got the thread during {intruded} of {} stays of the coroutine inside the call (single scheduling thread)", stays.len())));
+            } else if race && stays.len() < rounds {
+                viol = Some(("coroutine-preempted-in-syscall-state/never-resumed".into(), format!("the coroutine completed {} of {rounds} stays inside the call and was never resumed (a coroutine suspended inside a call has nobody to wake it)", stays.len())));
+            } else if (!race && ord.first() != Some(&"syscall-coroutine-finished-spinning")) || susp_in_sys > 0 {
                 viol = Some(("coroutine-preempted-in-syscall-state".into(), format!("order {ord:?}, Syscall->Suspend transitions {susp_in_sys}")));
             } else if results.len() < 2 {
                 viol = Some(("coroutines-did-not-finish".into(), format!("{results:?}")));
